@@ -362,13 +362,16 @@ func (hs *serverHandshakeState) cipherSuiteOk(c *cipherSuite) bool {
 		if !hs.ecdheOk {
 			return false
 		}
-		if c.flags&suiteECSign != 0 {
+		if c.flags&(suiteECSign|suiteECDSA) != 0 {
 			if !hs.ecSignOk {
 				return false
 			}
 		} else if !hs.rsaSignOk {
 			return false
 		}
+	} else if c.flags&suiteDSS != 0 {
+		// DSA server keys are not supported (see processClientHello).
+		return false
 	} else if !hs.rsaDecryptOk {
 		return false
 	}
